@@ -166,11 +166,15 @@ def run_gather(c, tier):
 def classify(lib, stage, fn, txt):
     """A stable key for a diagnostic (used for known findings)."""
     import re
+    if stage == "shroud":
+        lines = [l for l in txt.strip().splitlines() if l.strip()]
+        return "shroud:" + re.sub(r"[^A-Za-z0-9_{}.:-]+", "_", lines[-1] if lines else "no-output")[:70]
     t = txt
-    m = re.search(r"error: ([^\n]*)", t)
+    m = re.search(r"(?:error|Error): ([^\n]*)", t)
     msg = m.group(1) if m else t.strip().splitlines()[-1] if t.strip() else ""
     msg = re.sub(r"[‘’']", "'", msg)
     msg = re.sub(r"\b(g\d+|[A-Za-z_]*_g\d+\w*)\b", "<fn>", msg)
+    msg = re.sub(r"\bSH_[a-h]\b", "SH_<arg>", msg)
     msg = re.sub(r"\d+", "N", msg)
     kind = "py" if fn.startswith("py") else "lua" if fn.startswith("lua") else "f" if fn.endswith(".f") else "c"
     return re.sub(r"\s+", "_", "%s:%s:%s" % (stage, kind, msg[:80].strip()))
@@ -209,14 +213,30 @@ def explore(c, tier):
         have |= feats(best)
         pool.remove(best)
     uniq = (chosen + pool)[:n]
+    # the wide member of the domain (specs/LibGenPairs.tla): C + Fortran, Fortran with F_CFI, Python, Lua
+    sets = libgen.cfg_sets()
+    uniq.append(libgen.wide_library())
+    uniq.append(libgen.wide_library(sets["PyRows"], wrap_python=True, wrap_fortran=False, wrap_c=False))
+    uniq.append(libgen.wide_library(sets["LuaRows"], wrap_lua=True, wrap_fortran=False))
+    uniq.append(libgen.wide_library(F_CFI=True))
+    if tier == "thorough":
+        uniq.append(libgen.wide_library(debug=False, doxygen=False, show_splicer_comments=False, line=40))
+        uniq.append(libgen.wide_library(sets["PyRows"], wrap_python=True, wrap_fortran=True, F_CFI=True, literalinclude=True, line=132))
     results = [None] * len(uniq)
 
     def one(i):
         with common.scratch("c05-") as d:
-            try:
-                return i, libgen.build(d, uniq[i])
-            except MachineryError:
-                raise
+            res = libgen.build(d, uniq[i])
+        if res["shroud_rc"] != 0 and uniq[i]["opts"].get("F_CFI"):
+            # Shroud stopped: report that, then build the rest of the library without the functions of the
+            # recorded finding so that one failure does not hide the others
+            rest = libgen.without_cfi_conflict(uniq[i])
+            if rest["funcs"] and len(rest["funcs"]) < len(uniq[i]["funcs"]):
+                with common.scratch("c05-") as d:
+                    res2 = libgen.build(d, rest)
+                res2["problems"] = res["problems"] + res2["problems"]
+                return i, res2
+        return i, res
     with cf.ThreadPoolExecutor(max(2, common.NCPU // 2)) as ex:
         for i, res in ex.map(one, range(len(uniq))):
             results[i] = res
